@@ -58,6 +58,8 @@ LimSmall == {<<1, 1>>, <<0, 1>>, <<1, 0>>}
 LimMixed == {<<NoLim, NoLim>>, <<1, 1>>, <<2, 1>>, <<0, NoLim>>}
 LimTwo == {<<2, 2>>, <<1, 2>>}
 LimLeak == {<<2, 1>>}
+\* room for a third inbound connection of one peer while the outgoing limit is 1
+LimIn3 == {<<NoLim, 1>>, <<3, 1>>}
 \* only one direction limited (the code tracks a direction only when it is limited)
 LimAsym == {<<NoLim, 1>>, <<1, NoLim>>, <<NoLim, 2>>, <<2, NoLim>>}
 Disc == [k |-> "disc", pri |-> None, sec |-> None, dial |-> None]
@@ -417,5 +419,9 @@ LimExact == /\ limIn = {c \in DOMAIN tx : tx[c] \in {"accepting", "live"} /\ cdi
 View == <<ps, pend, tx, cpeer, cdir, caddrs, otr, ctr, limIn, limOut, next, known, mon, kf, MaxIn, MaxOut>>
 \* generation view: the manager/transport state only (monitor and tags are functions of the history)
 GenView == <<ps, pend, tx, cpeer, cdir, caddrs, otr, ctr, limIn, limOut, next, known, MaxIn, MaxOut>>
-Emit == PrintT(<<"B", ToJson([maxIn |-> MaxIn, maxOut |-> MaxOut, two |-> (WsAddrs # {}), stims |-> hist'])>>)
+\* rare transitions get a tag so that the quick tier can keep all of them when it samples the graph
+EmitTag == IF hist'[Len(hist')].a = "established" /\ (\E i \in 1..Len(out'.calls) : out'.calls[i].c = "reject") THEN "outrej"
+           ELSE IF hist'[Len(hist')].a = "accept_err" THEN "accerr"
+           ELSE ""
+Emit == PrintT(<<"B", ToJson([maxIn |-> MaxIn, maxOut |-> MaxOut, two |-> (WsAddrs # {}), tag |-> EmitTag, stims |-> hist'])>>)
 =============================================================================
